@@ -379,6 +379,86 @@ def r5(k: Kit) -> None:
                       'typed data can be sent as plain data', k.loc(fl, s))
 
 
+def r6(k: Kit) -> None:
+    """No empty chunk is left at the head of a stream receive buffer."""
+    rep = k.rep
+    rep.rule('C07.R6', 'a stream reader that consumes part of the head chunk '
+             'stores back a non-empty remainder or removes the chunk: an '
+             'empty chunk left at the head makes the next read(n) return '
+             'an empty result, which readers take for end-of-file')
+    sites = 0
+    for fi in k.idx.iter_funcs(['stream']):
+        stores = [x for x in ast.walk(fi.node) if isinstance(x, ast.Assign)
+                  and isinstance(x.targets[0], ast.Subscript) and
+                  dotted(x.targets[0].value) == 'recv_buf' and
+                  isinstance(x.targets[0].slice, ast.Constant) and
+                  x.targets[0].slice.value == 0]
+        if not stores:
+            continue
+        g = k.cfg(fi)
+        rd = k.rd(fi)
+        for st in stores:
+            nd = g.node_for(st)
+            if nd is None:
+                continue
+            sites += 1
+            # (a) a following emptiness test of the head that pops it
+            tests = [a.id for a in g.nodes if a.kind == 'atom' and
+                     norm(a.ast) in ('recv_buf[0]',) ]
+            pops = {p_.id for p_, c in k.calls_named(fi, 'pop', 'recv_buf')}
+            ok_a = False
+            if tests:
+                w = g.path(nd.id, g.exit, blocked_nodes=tests,
+                           follow_exc=False)
+                if w is None:
+                    # the empty (False) edge of each test leads to a pop
+                    ok_a = all(any(lab is False and (
+                        b in pops or g.path(b, g.exit, blocked_nodes=pops,
+                                            follow_exc=False) is None)
+                        for b, lab in g.succ[t]) for t in tests
+                        if g.path(nd.id, t, follow_exc=False) is not None)
+            # (b) remainder X[n:] stored under a guard len(X) > n
+            ok_b = False
+            v = st.value
+            if isinstance(v, ast.Subscript) and isinstance(v.slice, ast.Slice) \
+                    and v.slice.lower is not None and v.slice.upper is None:
+                low = dotted(v.slice.lower)
+                srcx = norm(v.value)
+
+                def val(x, low=low, srcx=srcx, nd=nd):
+                    a = x.ast
+                    if x.kind != 'atom' or not isinstance(a, ast.Compare) \
+                            or not isinstance(a.ops[0], ast.Gt):
+                        return None
+                    if dotted(a.comparators[0]) != low:
+                        return None
+                    left = a.left
+                    if is_call(left, 'len') and norm(left.args[0]) == srcx:
+                        return True
+                    ln = dotted(left)
+                    if ln:
+                        for d in rd.defs_of(x.id, ln):
+                            if d < 0:
+                                return None
+                            da = g.nodes[d].ast
+                            if not (isinstance(da, ast.Assign) and
+                                    is_call(da.value, 'len') and
+                                    norm(da.value.args[0]) == srcx):
+                                return None
+                        return True
+                    return None
+                ok_b = g.guarded_by(nd.id, val) is None
+            rep.check(ok_a or ok_b, 'C07.R6',
+                      key(fi, f'`{norm(st)[:40]}` leaves no empty head'),
+                      'remainder is non-empty by its guard, or an empty '
+                      'remainder is popped',
+                      f'`{norm(st)}` can leave an empty chunk at the head '
+                      'of the receive buffer: the next read(n) returns an '
+                      'empty result although the sender has not signalled '
+                      'EOF', k.loc(fi, nd))
+    rep.floor('C07.R6', 'partial-consumption stores', sites, 2)
+
+
 def run(idx, rep, tier):
     k = Kit(idx, rep)
     rep.assumptions += NOT_DECIDED
@@ -387,3 +467,4 @@ def run(idx, rep, tier):
     r3(k)
     r4(k)
     r5(k)
+    r6(k)
